@@ -537,6 +537,17 @@ def printf_y(w, repo):
             rc, out, err = _find(repo, [mode, name, "-printf", "%y %Y"], d)
             ok = out.split()[0] == want.split()[0] and (len(want.split()) == 1 or out.split()[1] == want.split()[1])
             res.append(("find %s %s -printf '%%y %%Y' = %r" % (mode, name, out), ok))
+        os.makedirs(os.path.join(d, "sub"))
+        os.symlink("../f", os.path.join(d, "sub", "lf")); os.symlink("../nowhere", os.path.join(d, "sub", "ld"))
+        for mode, want in (("-P", ["sub d", "sub/ld l", "sub/lf l"]), ("-H", ["sub d", "sub/ld l", "sub/lf l"]), ("-L", ["sub d", "sub/ld l", "sub/lf f"])):
+            rc, out, err = _find(repo, [mode, "sub", "-sorted", "-printf", "%p %y\n"], d)
+            got = [l for l in out.split("\n") if l]
+            res.append(("find %s sub -printf '%%p %%y': %r" % (mode, got), got == want))
+            for letter in "fdl":
+                rc, o1, err = _find(repo, [mode, "sub", "-sorted", "-type", letter], d)
+                rc, o2, err = _find(repo, [mode, "sub", "-sorted", "-printf", "%y %p\n"], d)
+                sel = [l.split(" ", 1)[1] for l in o2.split("\n") if l.startswith(letter + " ")]
+                res.append(("%s: -type %s selects %r, %%y prints %s for %r" % (mode, letter, o1.split(), letter, sel), o1.split() == sel))
         return _battery(res)
 
 
